@@ -296,6 +296,45 @@ def main():
                 except (W.WeaveError, rustlex.LexError) as e:
                     undecided.append("re-weave with degraded functions: " + str(e))
                 # FORCE_DEGRADE stays set for the vacuity units of this run (one process per check)
+        # ---- 2b. proof hints that no longer fit an edited function -------------------------
+        # `assert(e)` inside an annotation is a hint for the solver, not a contract.  After an edit (reordered match arms, a
+        # moved statement) a hint may sit next to code it was not written for and fail although requires / ensures / invariants
+        # still hold.  Such hints are replaced by `assert(true)` (in the woven unit only) and the function is verified again:
+        # its contract must then be proved without them.  Contract-level failures are never touched.
+        if not verus["compile_error"] and verus["json_ok"] and weave_report is not None:
+            changed_fns2 = set(it_["item"].split("::")[-1] for it_ in weave_report.get("items", []) if it_.get("kind") == "fn" and not it_.get("identical_to_annotated_baseline", True))
+            dropped_hints = []
+            for _round in range(4):
+                cand = [d for d in diags if d["head"].startswith("error: assertion failed") and set(d["fns"]) & changed_fns2]
+                if not cand:
+                    break
+                ulines = unit_text.split("\n")
+                edits = []
+                for d in cand:
+                    m = re.search(r"--> [^\n]*?:(\d+):(\d+)\n[^\n]*\n[^\n]*\n\s*\|(\s*)(\^+)", d["text"])
+                    if not m:
+                        continue
+                    ln_, col_, n_ = int(m.group(1)), int(m.group(2)), len(m.group(4))
+                    if not (1 <= ln_ <= len(ulines)):
+                        continue
+                    L = ulines[ln_ - 1]
+                    a_, b_ = col_ - 1, col_ - 1 + n_
+                    if re.search(r"\bassert\s*\(\s*$", L[:a_]) and L[b_:].lstrip().startswith(")"):
+                        edits.append((ln_, a_, b_, L[a_:b_]))
+                if not edits:
+                    break
+                for ln_, a_, b_, txt in sorted(set(edits), key=lambda e: (e[0], -e[1])):
+                    L = ulines[ln_ - 1]
+                    ulines[ln_ - 1] = L[:a_] + "true" + " " * max(0, (b_ - a_) - 4) + L[b_:]
+                    dropped_hints.append({"line": ln_, "hint": txt[:200]})
+                unit_text = "\n".join(ulines)
+                open(unit_path, "w").write(unit_text)
+                verus = run_verus(unit_path, prop.get("verify_modules"), rl, seed)
+                diags = parse_diagnostics(verus["stderr"], CRATE + ".rs", starts) if verus["stderr"] else []
+                if verus["compile_error"] or not verus["json_ok"]:
+                    break
+            if dropped_hints:
+                notes.append("proof hints (assert) of the edited function(s) %s did not hold for the edited text and were dropped; the contracts were re-verified without them: %s" % (", ".join(sorted(changed_fns2)), json.dumps(dropped_hints)[:1500]))
         if verus["compile_error"] or not verus["json_ok"]:
             heads = [d["head"] + " @" + ",".join(d["fns"]) for d in diags][:8]
             undecided.append("verus could not process the unit (edited code outside the supported subset, or a renamed item): " + "; ".join(heads))
